@@ -904,6 +904,8 @@ func (c *Conn) advanceFrame() (int, error) {
 		}
 
 		if err := c.setReadRemaining(int64(binary.BigEndian.Uint64(p))); err != nil {
+			// Make a best effort to send a close message describing the problem.
+			_ = c.WriteControl(CloseMessage, FormatCloseMessage(CloseMessageTooBig, ""), time.Now().Add(writeWait))
 			return noFrame, err
 		}
 	}
@@ -932,6 +934,8 @@ func (c *Conn) advanceFrame() (int, error) {
 		// Don't allow readLength to overflow in the presence of a large readRemaining
 		// counter.
 		if c.readLength < 0 {
+			// Make a best effort to send a close message describing the problem.
+			_ = c.WriteControl(CloseMessage, FormatCloseMessage(CloseMessageTooBig, ""), time.Now().Add(writeWait))
 			return noFrame, ErrReadLimit
 		}
 
